@@ -446,6 +446,14 @@ PROPS["C13"]["required"] += ["SqlVerif.Props.C13Dml.assignment_local", "SqlVerif
                              "SqlVerif.Props.C13Dml.columns_loop_is_ad_hoc"]
 PROPS["C13"]["level_text"] += " For the statement fragment (Model/Dml.lean, stream dml, run under C11/C05) the locality assumption is discharged for UPDATE assignments, VALUES rows, INSERT / REFERENCES column lists and name lists (DROP TABLE, DELETE a, b FROM, tuple targets), which are parse_comma_separated lists (trailing-comma and option-inert instances); the column-definition list of CREATE TABLE is proved NOT to be one: parse_columns is an ad-hoc loop that honours the option (columns_trailing_comma / columns_trailing_comma_off, with columnDef_local for `,` `)` `;`) but ignores the end set of is_parse_comma_separated_end (columns_loop_is_ad_hoc: with the option on `CREATE TABLE t (a INT, FROM INT)` has two columns)."
 
+PROPS["C05"]["lean"].append("SqlVerif.Props.C05Dml")
+PROPS["C05"]["namespaces"].append("SqlVerif.Props.C05Dml")
+PROPS["C05"]["required"] += ["SqlVerif.Props.C05Dml.stmt_content_preserved_partial", "SqlVerif.Props.C05Dml.stmt_content_preserved_stmt",
+                             "SqlVerif.Props.C05Dml.content_changed_type_number"]
+PROPS["C05"]["corr"].append("dml")
+PROPS["C05"]["unique_output"]["dml"] = False
+PROPS["C05"]["level_text"] += " The same sequence-level content theorem is proved for a core of the DML/DDL statements (Model/Dml.lean + DmlPrint.lean: INSERT incl. VALUES / DEFAULT VALUES / RETURNING, UPDATE, DELETE, CREATE TABLE with column options, DROP TABLE; Display text tied to to_string() by stream dml, 13 dialects, both option values): stmt_content_preserved_partial, for printable statements (printable expressions and queries; column types that are keyword-only types written with keyword tokens). An excluded type shape that changes content on the current code is kept as a kernel-checked witness: numbers inside a type are re-rendered (VARCHAR(010) prints VARCHAR(10))."
+
 # entries still under construction by a sub-agent are not claimed in MANIFEST.json yet
 for _hold in []:
     if _hold in PROPS:
